@@ -303,6 +303,20 @@ func (e *Exec) convert(x Value, from, to types.Type) Value {
 			if fv.Known {
 				return tc.Const(tw, uint64(int64(fv.F)))
 			}
+			// truncation of a float that is a known function of an integer
+			switch fv.Op {
+			case "secs": // whole seconds of a nanosecond count
+				q := tc.Bin(OSDiv, fv.T, tc.Const(64, 1_000_000_000))
+				if tw < 64 {
+					return tc.Extract(q, tw-1, 0)
+				}
+				return q
+			case "ofint":
+				if tw < 64 {
+					return tc.Extract(fv.T, tw-1, 0)
+				}
+				return fv.T
+			}
 			panic(unsupported{"float->int of symbolic float"})
 		}
 		if _, ok := fu.(*types.Pointer); ok {
